@@ -13,29 +13,27 @@ unsigned int UNIT(u_pla)(ukey_t *xs, unsigned long *ys, unsigned long k, unsigne
 #ifndef YMAX
 #define YMAX 12
 #endif
+#ifndef XMAX
 #define XMAX ((1ULL << (KEY_BITS)) - 1)
+#endif
 
 VERIF_MAIN {
-#ifdef ABL_EPS1
-  unsigned long eps = 1;
+#ifdef EPSFIX
+  unsigned long eps = EPSFIX;   /* literal: band arithmetic folds */
 #else
   unsigned long eps = IN(0, EPSMAX);
 #endif
   ukey_t xs[NPTS]; unsigned long ys[NPTS]; i64 X[NPTS], Y[NPTS];
   for (int i = 0; i < NPTS; i++) {
     X[i] = IN(i ? X[i - 1] + 1 : 0, XMAX - (NPTS - 1 - i));   /* strictly increasing keys */
-#ifdef ABL_YCONC
-    Y[i] = i;
-#else
-    Y[i] = IN(i ? Y[i - 1] : 0, YMAX);
-#endif
-  //                    /* non-decreasing ranks, as the driver produces them */
+    Y[i] = IN(i ? Y[i - 1] : 0, YMAX);                    /* non-decreasing ranks, as the driver produces them */
     xs[i] = (ukey_t) X[i]; ys[i] = (unsigned long) Y[i];
   }
   unsigned long acc = 0; long seg[10] = {0};
   unsigned int rc = UNIT(u_pla)(xs, ys, NPTS, eps, &acc, seg);
   OUT(rc); OUT(acc); for (int i = 0; i < 10; i++) OUT(seg[i]);
   ASSERT(rc == 0, "increasing points are accepted without exception");
+  ASSERT(YMAX + EPSMAX <= OR_RANK_MAX, "OR_RANGE: oracle masks are value-preserving");
   ASSERT(acc >= 2 && acc <= NPTS, "the first two points always fit one segment");
   /* C03: both extreme lines of the reported rectangle stay within eps of every accepted point */
   i64 r0x = seg[0], r0y = seg[1], r1x = seg[2], r1y = seg[3], r2x = seg[4], r2y = seg[5], r3x = seg[6], r3y = seg[7];
@@ -46,12 +44,17 @@ VERIF_MAIN {
       ASSERT(line_in_band(r0x, r0y, r2x, r2y, X[i], Y[i], eps), "C03 min-slope extreme line within eps of every accepted point");
       ASSERT(line_in_band(r1x, r1y, r3x, r3y, X[i], Y[i], eps), "C03 max-slope extreme line within eps of every accepted point");
       /* the reported line: slope (r3-r1), integer intercept rounded at origin first_x: within eps + 1/2 */
-      i64 dx = r3x - r1x, dy = r3y - r1y;
-      i64 v2 = 2 * (seg[9] * dx + (X[i] - X[0]) * dy - Y[i] * dx);
-      ASSERT(v2 <= (2 * (i64) eps + 1) * dx && -v2 <= (2 * (i64) eps + 1) * dx, "C03 reported line (rounded intercept) within eps + 1/2 of every accepted point");
+      {
+        /* reported line: slope (r3-r1) = dy/dx, integer intercept c = seg[9] at origin X[0]:  2*|c*dx + (x-X0)*dy - y*dx| <= (2eps+1)*dx.
+           x >= X0 here; dy >= 0 (ranks non-decreasing => the max-slope side never descends: asserted) */
+        unsigned dx = (unsigned) (r3x - r1x); i64 dy = r3y - r1y;
+        ASSERT(dy >= 0 && seg[9] >= 0 && seg[9] <= OR_RANK_MAX, "reported slope non-negative, intercept a small rank");
+        unsigned lhs = OR_MUL(seg[9], dx) + OR_MUL(dy, X[i] - X[0]), mid = OR_MUL(Y[i], dx);
+        ASSERT(2 * lhs <= 2 * mid + (2 * (unsigned) eps + 1) * dx && 2 * mid <= 2 * lhs + (2 * (unsigned) eps + 1) * dx, "C03 reported line (rounded intercept) within eps + 1/2 of every accepted point");
+      }
     }
   /* C04: rejection only when no line fits the accepted points plus the rejected one (maximality) */
-#ifndef ABL_NOFEAS
+#ifndef NO_MAXIMALITY
   if (acc < NPTS) ASSERT(!feasible(X, Y, (int) acc + 1, eps), "C04 a point is rejected only if no line fits it together with the current segment");
 #endif
   VERIF_END;
